@@ -200,7 +200,18 @@ func ownCache(seed int64) int {
 				name := wireLabels([]byte(fmt.Sprintf("k%d", rr.Intn(300))), []byte("cache"))
 				q := dnsmsg.NewQuestion()
 				q.Name, q.Type, q.Class = nameBuf(name), dnsmsg.TypeA, dnsmsg.ClassINET
-				if rr.Intn(2) == 0 {
+				if k := rr.Intn(6); k < 2 {
+					// negative answers are stored set-if-absent: repeated stores of one key are rejected
+					name = wireLabels([]byte(fmt.Sprintf("n%d", rr.Intn(40))), []byte("cache"))
+					dnsmsg.ReleaseName(q.Name)
+					q.Name = nameBuf(name)
+					resp := dnsmsg.NewMsg()
+					resp.Header.Response = true
+					resp.Header.RCode = dnsmsg.RCodeNameError
+					resp.Questions = append(resp.Questions, q.Copy())
+					v.CacheStore(q, netipAddrNone, resp)
+					dnsmsg.ReleaseMsg(resp)
+				} else if k < 4 {
 					resp := dnsmsg.NewMsg()
 					resp.Header.Response = true
 					resp.Questions = append(resp.Questions, q.Copy())
@@ -274,6 +285,71 @@ func ownHandleMix(seed int64, per int) int {
 	return bad
 }
 
+// scenario prefetch: cache hits inside the refresh window; the background refresh must ask the upstream for the
+// client's own question (it works on a copy taken before the handler releases the pooled question).
+func ownPrefetch(seed int64, n int) int {
+	cfg := &router.Config{}
+	cfg.Upstreams = []router.UpstreamConfig{{Tag: "u0", Addr: "udp://127.0.0.1:9"}}
+	cfg.Rules = []router.RuleConfig{{Forward: "u0"}}
+	cfg.Cache.MemSize = 1 << 20
+	v, err := router.VerifRun(cfg)
+	if err != nil {
+		return -1
+	}
+	defer v.Close()
+	up := &scriptUp{perName: map[string]int{}}
+	v.SetUpstream("u0", up)
+	asked := map[string]bool{}
+	for i := 0; i < n; i++ {
+		name := wireLabels([]byte(fmt.Sprintf("ok%d-%d", seed%1000, i)), []byte("pf"))
+		asked[string(name)] = true
+		lq := dnsmsg.NewQuestion()
+		lq.Name, lq.Type, lq.Class = nameBuf(name), dnsmsg.TypeA, dnsmsg.ClassINET
+		resp := dnsmsg.NewMsg()
+		resp.Header.Response = true
+		resp.Questions = append(resp.Questions, lq.Copy())
+		a := dnsmsg.NewA()
+		a.Name = nameBuf(name)
+		a.Type, a.Class, a.TTL = dnsmsg.TypeA, dnsmsg.ClassINET, 300
+		a.A = answerFor(name, 1, 1)
+		resp.Answers = append(resp.Answers, a)
+		now := time.Now()
+		v.CacheStoreAt(lq, netipAddrNone, resp, now.Add(-10*time.Second), now.Add(2*time.Second))
+		dnsmsg.ReleaseMsg(resp)
+		dnsmsg.ReleaseQuestion(lq)
+	}
+	time.Sleep(50 * time.Millisecond)
+	var wg sync.WaitGroup
+	for i := 0; i < n; i++ {
+		wg.Add(1)
+		go func(i int) {
+			defer wg.Done()
+			name := wireLabels([]byte(fmt.Sprintf("ok%d-%d", seed%1000, i)), []byte("pf"))
+			q := dnsmsg.NewMsg()
+			q.Header.ID, q.Header.RecursionDesired = uint16(i), true
+			qq := dnsmsg.NewQuestion()
+			qq.Name, qq.Type, qq.Class = nameBuf(name), dnsmsg.TypeA, dnsmsg.ClassINET
+			q.Questions = append(q.Questions, qq)
+			resp, _, _, _ := v.Handle(q, netip.AddrPort{}, netip.AddrPort{})
+			if resp != nil {
+				dnsmsg.ReleaseMsg(resp)
+			}
+			dnsmsg.ReleaseMsg(q)
+		}(i)
+	}
+	wg.Wait()
+	time.Sleep(300 * time.Millisecond)
+	corrupt := 0
+	up.mu.Lock()
+	for name := range up.perName {
+		if !asked[name] {
+			corrupt++ // the upstream was asked for a question no client asked
+		}
+	}
+	up.mu.Unlock()
+	return corrupt
+}
+
 func runOwnership(cs string) string {
 	m := kv(cs)
 	seed := int64(atoi(m["seed"]))
@@ -289,6 +365,8 @@ func runOwnership(cs string) string {
 		corrupt = ownStress(seed, atoi(m["per"]), atoi(m["clients"]))
 	case "handlemix":
 		corrupt = ownHandleMix(seed, atoi(m["per"]))
+	case "prefetch":
+		corrupt = ownPrefetch(seed, atoi(m["n"]))
 	default:
 		return "bad-case"
 	}
@@ -310,6 +388,7 @@ func genOwnership(r *rand.Rand, thorough bool, emit func(c, cat string)) {
 		emit(fmt.Sprintf("scenario=cache seed=%d", r.Intn(1<<30)), "cache")
 		emit(fmt.Sprintf("scenario=stress per=%d clients=%d seed=%d", per, clients, r.Intn(1<<30)), "stress")
 		emit(fmt.Sprintf("scenario=handlemix per=%d seed=%d", per*100, r.Intn(1<<30)), "handlemix")
+		emit(fmt.Sprintf("scenario=prefetch n=%d seed=%d", per*10, r.Intn(1<<30)), "prefetch")
 	}
 }
 
